@@ -1,7 +1,7 @@
 """C07 - SingleListGrader scores a delimited list by the documented credit formula."""
 import itertools
 
-from symx import Harness, pname, sand, sor, simplies, siff, near_le, near_eq, snot, sif, smax
+from symx import Harness, pname, sand, sor, simplies, siff, near_le, near_eq, snot, sif, smax, Abort
 from symx.stubs import make_table_grader, wellformed
 
 PROPERTY = 'C07'
@@ -83,6 +83,33 @@ def h_slg(E, ordered, partial, n_exp, n_stu, interior, delim, perm_check, blank=
             r2 = g(None, (delim + ' ').join(p))
             E.check('permutation-invariant', near_eq(r2['grade_decimal'], r['grade_decimal']))
     return [list(t) for t in tags] + [shown, str(r['ok'])]
+
+
+STRING_ANSWER_ITEMS = [['ann', 'bob', 'dan'], ['a', 'nd', 'd'], ['x', 'y', 'z'], ['nan', 'dad', 'and'], ['-a', 'b-', '-'], ['a', 'b', ''], ['', 'a', 'b']]
+
+
+def h_string_answers(E, delim):
+    """an expected list written as ONE delimiter-separated string means the same as the list of its items - also when items begin or end with characters
+    of a multi-character delimiter, or (missing_error off) when the first or last item is blank: same grade for every submission"""
+    from mitxgraders import SingleListGrader, StringGrader
+    items = E.choice('items', STRING_ANSWER_ITEMS)
+    blankish = '' in items
+    if blankish and delim.strip() == '':
+        raise Abort()
+    subs = [list(items), list(reversed(items)), items[:2] + ['zzz'], items[:1]]
+    sub = subs[E.fork_int('submission', 0, len(subs) - 1)]
+    kw = dict(subgrader=StringGrader(), delimiter=delim, ordered=E.fork_bool('ordered'), missing_error=not blankish, length_error=False)
+    try:
+        g_str = SingleListGrader(answers=delim.join(items), **kw)
+        g_lst = SingleListGrader(answers=list(items), **kw)
+    except Exception as e:   # noqa - blank items in list-form answers are refused at construction in both forms or in neither
+        raise Abort()
+    text = delim.join(sub)
+    a, b = g_str(None, text), g_lst(None, text)
+    E.check('string-form-answer-means-the-list-of-its-items', a['grade_decimal'] == b['grade_decimal'] and a['ok'] == b['ok'])
+    if sub == list(items):
+        E.check('own-items-earn-full-credit', a['grade_decimal'] == 1)
+    return str(a['ok'])
 
 
 def h_alts(E, ordered, interior, form='two-answers'):
@@ -200,6 +227,8 @@ def harnesses(tier):
             add(h_slg, 'slg', dict(ordered=ordered, partial=partial, n_exp=2, n_stu=3, interior=True, delim=';', perm=False), 'credits in (0,1)')
         add(h_slg, 'slg', dict(ordered=ordered, partial=True, n_exp=3, n_stu=3, interior=True, delim=',', perm=False), 'credits in (0,1)')
     add(h_slg, 'slg', dict(ordered=True, partial=True, n_exp=3, n_stu=4, interior=False, delim=';', perm=False), 'credits in [0,1]')
+    for delim in (',', ' and ', '--', ';', 'nd'):
+        add(h_string_answers, 'string_answers', dict(delim=delim), '7 item lists x 4 submissions x ordered/unordered', validate=False)
     for ordered in (True, False):
         for partial in (True, False):
             add(h_slg, 'slg', dict(ordered=ordered, partial=partial, n_exp=2, n_stu=2, interior=False, delim=',', perm=False, blank=True), 'last submitted item blank; credits in [0,1]')
